@@ -19,6 +19,7 @@ import SophiaModel.Model.IriWrapper
 import SophiaModel.Model.Resolve3986
 import SophiaModel.Model.OxiriResolve
 import SophiaProofs.Lemmas.Resolve3986
+import SophiaProofs.Lemmas.OxiriSim
 
 namespace SophiaProofs.C09
 open SophiaModel Re
@@ -213,6 +214,64 @@ theorem oxiri_agrees_refuted_base_dots : ¬ OxiriAgrees := fun h =>
 /-- finding C09-ref-authority-dot-segments: `resolve("x:/", "//h/.")` = `x://h/.`, RFC: `x://h/` -/
 theorem oxiri_agrees_refuted_ref_authority : ¬ OxiriAgrees := fun h =>
   absurd (h "x:/".toList "//h/.".toList (by decide) (by decide)) (by decide)
+
+/-! ### round 3: the fuel hypothesis, panic-freedom and RFC agreement on bases with an authority -/
+
+/-- the fuel of §5.2.4 (`removeDotSegments p = rdsLoop (p.length + 1) p []`) is never exhausted: every
+larger fuel gives the same result (each step strictly shortens the input, `rdsStep_decreases`). -/
+theorem remove_dot_segments_fuel (p : Str) (n : Nat) (h : p.length < n) :
+    Rfc3986.rdsLoop n p [] = Rfc3986.removeDotSegments p :=
+  SophiaProofs.OxiriSim.rdsLoop_fuel n (p.length + 1) p [] h (Nat.lt_succ_self _)
+
+/-- no accepted reference begins with ':' (so oxiri's `NoScheme` error is unreachable) -/
+theorem accepted_ref_no_leading_colon (t : List Nat) : IriWrapper.iriRefNew (58 :: t) = false := by
+  cases h : IriWrapper.iriRefNew (58 :: t) with
+  | false => rfl
+  | true => exact absurd ((matchB_iff _ _).1 h) (SophiaProofs.OxiriSim.ref_no_leading_colon t)
+
+/-- "every accepted value can be resolved without panicking", for every base that HAS an authority
+(`http://…`, `file://…`, network-path bases): oxiri's algorithm returns a result, so the `unwrap` of the
+typed `Resolvable::output_abs/output_rel` cannot fail.  The hypothesis is necessary:
+`oxiri_agrees_refuted_panic` is an authority-less base on which it does fail. -/
+theorem typed_resolve_never_panics_with_authority (b r : Str)
+    (hr : IriWrapper.iriRefNew (r.map Char.toNat) = true)
+    (hb : (Rfc3986.split b).authority.isSome = true) :
+    OxiriResolve.resolve b r ≠ none := by
+  have h := SophiaProofs.OxiriSim.resolve_isSome_of_authority b r hb (by
+    intro t e
+    subst e
+    have := accepted_ref_no_leading_colon (t.map Char.toNat)
+    simp at hr
+    rw [this] at hr
+    exact absurd hr (by simp))
+  intro e
+  rw [e] at h
+  exact absurd h (by simp)
+
+example : (Rfc3986.split "http://a/b/c/d;p?q".toList).authority.isSome = true := by decide
+example : OxiriResolve.resolve "http://a/b".toList ".//g".toList = some "http://a//g".toList := by decide
+
+/-- references `/path[?query][#fragment]` (absolute-path, not network-path) -/
+def AbsPathRef (r : Str) : Prop :=
+  ∃ rp tail : Str, r = '/' :: rp ++ tail ∧ (∀ c ∈ rp, c ≠ '?' ∧ c ≠ '#') ∧
+    SophiaProofs.OxiriSim.Tail tail ∧ (∀ y, rp ≠ '/' :: y)
+
+/-- PARTIAL (second part): for ANY base with an authority — dot segments in the base or not — and any
+absolute-path reference, dot segments included, the code's one-pass algorithm returns exactly the
+RFC 3986 §5.2 result (simulation of §5.2.4 by `parse_path::<true>`, `OxiriSim.sim`).
+Still missing from `OxiriAgrees`: relative-path references (they need the base's own path to be
+dot-free: `oxiri_agrees_refuted_base_dots`), references with a scheme or authority and dot segments
+(`oxiri_agrees_refuted_ref_authority`), authority-less bases (`…_rootpop`, `…_panic`). -/
+theorem oxiri_agrees_abs_path_partial (b r : Str) (hb : (Rfc3986.split b).authority.isSome = true)
+    (h : AbsPathRef r) : OxiriResolve.resolve b r = some (Rfc3986.resolve b r) := by
+  obtain ⟨rp, tail, e, hq, ht, hh⟩ := h
+  subst e
+  exact SophiaProofs.OxiriSim.ox_abs_path b rp tail hb hq ht hh
+
+example : AbsPathRef "/a/./b/../c?q#f".toList :=
+  ⟨"a/./b/../c".toList, "?q#f".toList, rfl, by decide, Or.inr ⟨'?', "q#f".toList, rfl, Or.inl rfl⟩, by
+    intro y e; cases e⟩
+example : Rfc3986.resolve "http://h/x/../y".toList "/a/./b/../c?q#f".toList = "http://h/a/c?q#f".toList := by decide
 
 /-- FULL statement of "... which is itself an accepted absolute IRI" for the ORACLE: the RFC 3986
 §5.2 result of accepted inputs is an RFC 3987 `IRI`. -/
